@@ -59,6 +59,17 @@ def bBit (x : Int) (i : Int) : Option Int :=
 /-- `make([][]Op, n)`: `n` nil slices; panics when `n` is negative -/
 def makeOpLists (n : Int) : Option (List (List GOp)) := if n < 0 then none else some (List.replicate n.toNat [])
 
+/-- `new(big.Int).Div(x, y)`: Euclidean division; panics when `y` is zero -/
+def bDiv (x y : Int) : Option Int := if y = 0 then none else some (x / y)
+
+/-- `uint(i)` of a Go `int`: the translated functions only convert values they have established to be
+    non-negative; a negative value (which Go would wrap) is treated as a panic, so no tie theorem can be
+    proved about a wrapped value -/
+def goUint (i : Int) : Option Nat := if i < 0 then none else some i.toNat
+
+/-- `panic(...)` -/
+def goPanic {α} : Option α := none
+
 /-- `new(big.Int).Mul(x, y)` -/
 def bMul (x y : Int) : Int := x * y
 
